@@ -28,7 +28,6 @@ for diff in sorted(glob.glob(os.path.join(d, "*.diff"))):
     h = subprocess.check_output(["git", "-C", "/repo", "log", "--format=%h", "-1"], text=True).strip()
     paras = [p for p in msg.split("\n\n")[1:] if p.strip()]
     what = re.sub(r"\s+", " ", paras[0]).strip() if paras else msg.splitlines()[0][5:]
-    rec = {"property": pid, "fixed": f"fixed: property={pid} {h} {what[:400]}"}
     with open(os.path.join(ROOT, "known_findings.jsonl"), "a", encoding="utf-8") as f:
-        f.write(json.dumps(rec, ensure_ascii=False) + "\n")
+        f.write(f"fixed: property={pid} {h} {what[:400]}\n")
     print(f"{base}: committed {h}")
